@@ -83,10 +83,13 @@ def run(tier: str) -> int:
         traces.append(run_case(c["hist"], c["bs"], c["budget"], stream, emb))
         meta.append({**c, "embed": emb})
     n_rand = 1500 if tier == "quick" else 60000       # random streams: budgets 0-6, batch sizes 1-4, universes of 3-5 points
-    for _ in range(n_rand):
+    for it in range(n_rand):
         u = rng.choice([3, 4, 5])
         hist = [rng.randint(1, u) for _ in range(rng.randint(0, 4))]
         bs, budget = rng.randint(1, 4), rng.randint(0, 6)
+        if it % 250 == 7:
+            hist = [rng.randint(1, 6) for _ in range(rng.choice([20, 35]))]      # long histories / larger batches now and then
+            bs, u = rng.randint(3, 5), 6
         stream = [rng.randint(1, u) for _ in range(bs * (budget + 2))]
         emb = rng.choice(list(EMBED))
         traces.append(run_case(hist, bs, budget, stream, emb))
